@@ -3,8 +3,10 @@
 //! (in-memory sqlite) `cob::cache::Store`, and to `radicle_node::worker::fetch::cache_cobs`.
 //!
 //! A behaviour is a list of steps (create / local operation / remove / creation, operation or
-//! deletion by a peer that is then fetched / write_all).  "me" is a node with the project and the
-//! cache; "peer" is a second node with a clone.  Local steps go through the caching handles
+//! deletion by a peer that is then fetched / write_all).  "me" is a node with TWO repositories in
+//! its storage and ONE cache database for both (as `rad` and the node have); "peer" is a second node
+//! with clones of both.  Every query is asked of both repositories, with the identifiers of both as
+//! arguments, so a cached query that forgets its `repo = ?` condition shows up.  Local steps go through the caching handles
 //! (`Cache::create`, `PatchMut`, `IssueMut`, `Cache::remove`, `Cache::write_all`); peer steps are
 //! made in the peer's storage, fetched into mine, and the resulting `RefUpdate`s are given to the
 //! real `cache_cobs` (hook `worker::fetch::verif_cache_cobs`).
@@ -34,7 +36,7 @@ use radicle::git::Oid;
 use radicle::node::device::Device;
 use radicle::storage::git::Repository;
 use radicle::storage::{ReadStorage as _, RefUpdate};
-use radicle::test::setup::{Node, NodeRepo};
+use radicle::test::setup::Node;
 
 /// Identifier tables: model id <-> real id, and where comments / reviews live.
 #[derive(Default, Clone)]
@@ -45,6 +47,8 @@ struct Ids {
     /// comment -> (revision (0 for issues), review if it is a review comment)
     comment_at: BTreeMap<u64, (u64, Option<u64>)>,
     review_rev: BTreeMap<u64, u64>,
+    /// object -> repository (0-based)
+    repo_of: BTreeMap<u64, usize>,
 }
 
 impl Ids {
@@ -60,15 +64,22 @@ impl Ids {
     }
 }
 
+/// Number of repositories that share the node's storage and its one cache database.
+const NREPOS: usize = 2;
+
 struct World {
     me: Node,
     peer: Node,
-    repo: NodeRepo,
-    peer_repo: Repository,
+    /// my repositories (one storage) and the peer's clones of them
+    repos: Vec<Repository>,
+    peer_repos: Vec<Repository>,
+    /// the repository the current step is about
+    cur: usize,
+    /// ONE cache database for all repositories, as `rad` and the node have
     db: StoreWriter,
     nfiles: usize,
-    /// I changed my storage since the peer last fetched from me
-    peer_stale: std::cell::Cell<bool>,
+    /// I changed my storage since the peer last fetched from me (per repository)
+    peer_stale: Vec<std::cell::Cell<bool>>,
 }
 
 type Signer = Device<MockSigner>;
@@ -87,11 +98,45 @@ impl World {
         let t2 = tempfile::tempdir_in(dir).expect("tempdir");
         let me = Node::new(t1, MockSigner::from_seed([0xa1; 32]), "me");
         let mut peer = Node::new(t2, MockSigner::from_seed([0xb2; 32]), "peer");
-        let repo = me.project();
-        peer.clone(repo.id, &me);
-        let peer_repo = peer.storage.repository(repo.id).expect("peer repository");
+        radicle::storage::git::transport::local::register(me.storage.clone());
+        let mut repos = Vec::new();
+        let mut peer_repos = Vec::new();
+        for k in 0..NREPOS {
+            // same initial commits, different project name: a different identity document, hence a
+            // different repository id (and different COB ids for the same operations)
+            let (working, _) = radicle::test::fixtures::repository(me.root.join(format!("working{k}")));
+            let (rid, _, _) = radicle::rad::init(
+                &working,
+                format!("project{k}").as_str().try_into().expect("name"),
+                "verification",
+                radicle_git_ext::ref_format::refname!("master"),
+                radicle::identity::Visibility::default(),
+                &me.signer,
+                &me.storage,
+            )
+            .expect("rad init");
+            peer.clone(rid, &me);
+            repos.push(me.storage.repository(rid).expect("repository"));
+            peer_repos.push(peer.storage.repository(rid).expect("peer repository"));
+        }
         let db = StoreWriter::memory().expect("cache db").with_migrations(migrate::ignore).expect("migrations");
-        World { me, peer, repo, peer_repo, db, nfiles: 0, peer_stale: std::cell::Cell::new(true) }
+        World {
+            me,
+            peer,
+            repos,
+            peer_repos,
+            cur: 0,
+            db,
+            nfiles: 0,
+            peer_stale: (0..NREPOS).map(|_| std::cell::Cell::new(true)).collect(),
+        }
+    }
+
+    fn repo(&self) -> &Repository {
+        &self.repos[self.cur]
+    }
+    fn peer_repo(&self) -> &Repository {
+        &self.peer_repos[self.cur]
     }
 
     /// A new commit on top of the master branch, written straight into the storage of the actor
@@ -99,7 +144,7 @@ impl World {
     /// reachable, so they travel with the patch).
     fn new_commit(&mut self, by_me: bool) -> (Oid, Oid) {
         self.nfiles += 1;
-        let raw = if by_me { &self.repo.backend } else { &self.peer_repo.backend };
+        let raw = if by_me { &self.repo().backend } else { &self.peer_repo().backend };
         let master = format!("refs/namespaces/{}/refs/heads/master", self.me.signer.public_key());
         let base = raw.refname_to_id(&master).expect("master");
         let parent = raw.find_commit(base).expect("commit");
@@ -116,7 +161,13 @@ impl World {
     /// next behaviour starts from an empty project without paying for a new pair of nodes.
     fn reset(&mut self) {
         use radicle::storage::SignRepository as _;
-        for (repo, signer) in [(&*self.repo as &Repository, &self.me.signer), (&self.peer_repo, &self.peer.signer)] {
+        let all: Vec<(&Repository, &Signer)> = self
+            .repos
+            .iter()
+            .map(|r| (r, &self.me.signer))
+            .chain(self.peer_repos.iter().map(|r| (r, &self.peer.signer)))
+            .collect();
+        for (repo, signer) in all {
             let raw = &repo.backend;
             let names: Vec<String> = raw
                 .references_glob("refs/namespaces/*/refs/cobs/*")
@@ -130,9 +181,13 @@ impl World {
             repo.sign_refs(signer).expect("sign refs");
         }
         // both sides see each other's (now empty) signed references again
-        self.peer_stale.set(true);
-        self.sync_peer().expect("sync");
-        Self::copy_namespace(&self.repo, &self.peer_repo, self.peer.signer.public_key()).expect("sync");
+        for k in 0..NREPOS {
+            self.cur = k;
+            self.peer_stale[k].set(true);
+            self.sync_peer().expect("sync");
+            Self::copy_namespace(self.repo(), self.peer_repo(), self.peer.signer.public_key()).expect("sync");
+        }
+        self.cur = 0;
         self.db = StoreWriter::memory().expect("cache db").with_migrations(migrate::ignore).expect("migrations");
     }
 
@@ -163,20 +218,20 @@ impl World {
     }
 
     fn sync_peer(&self) -> Result<(), String> {
-        if !self.peer_stale.get() {
+        if !self.peer_stale[self.cur].get() {
             return Ok(());
         }
-        self.peer_stale.set(false);
-        Self::copy_namespace(&self.peer_repo, &self.repo, self.me.signer.public_key()).map(|_| ())
+        self.peer_stale[self.cur].set(false);
+        Self::copy_namespace(self.peer_repo(), self.repo(), self.me.signer.public_key()).map(|_| ())
     }
 
     /// Fetch the peer's namespace into my storage (pruning) and hand the reference updates to the
     /// worker's `cache_cobs`.
     fn fetch_from_peer(&mut self) -> Result<(), String> {
-        let updates = Self::copy_namespace(&self.repo, &self.peer_repo, self.peer.signer.public_key())?;
-        let rid = self.repo.id;
+        let updates = Self::copy_namespace(self.repo(), self.peer_repo(), self.peer.signer.public_key())?;
+        let rid = self.repo().id;
         let db = &mut self.db;
-        let repo: &Repository = &self.repo;
+        let repo: &Repository = &self.repos[self.cur];
         guard(|| radicle_node::worker::fetch::verif_cache_cobs(&rid, &updates, repo, db))
             .map_err(|p| format!("panic in cache_cobs: {p}"))?
             .map_err(|e| format!("cache_cobs: {e}"))
@@ -259,11 +314,19 @@ where
 /// Execute one step of a behaviour.
 fn step(w: &mut World, ids: &mut Ids, s: &Value) -> Result<(), String> {
     let a = s["a"].as_str().unwrap();
-    if matches!(a, "create" | "local" | "remove") || s["op"]["k"] == "revision" || s["op"]["k"] == "create" {
-        w.peer_stale.set(true);
-    }
     let o = &s["op"];
     let obj = s["obj"].as_u64().unwrap_or(0);
+    // the repository the step is about: named by creations and write_all, that of the object otherwise
+    w.cur = match a {
+        "create" | "fetchedCreate" | "writeAll" => (o["repo"].as_u64().unwrap_or(1).max(1) - 1) as usize,
+        _ => *ids.repo_of.get(&obj).unwrap_or_else(|| fatal(&format!("unknown object {obj}"))),
+    };
+    if w.cur >= NREPOS {
+        fatal("repository index out of range");
+    }
+    if matches!(a, "create" | "local" | "remove") || s["op"]["k"] == "revision" || s["op"]["k"] == "create" {
+        w.peer_stale[w.cur].set(true);
+    }
     let by_me = o["by"] == "me";
     match a {
         "create" | "fetchedCreate" => {
@@ -273,7 +336,7 @@ fn step(w: &mut World, ids: &mut Ids, s: &Value) -> Result<(), String> {
             let entry: Oid = if a == "create" {
                 if is_patch {
                     let (base, oid) = w.new_commit(true);
-                    let mut patches = patch::Cache::open(patch::Patches::open(&*w.repo).map_err(|e| e.to_string())?, w.db.clone());
+                    let mut patches = patch::Cache::open(patch::Patches::open(w.repo()).map_err(|e| e.to_string())?, w.db.clone());
                     let p = if draft {
                         patches.draft(format!("patch {id}"), "d", MergeTarget::Delegates, base, oid, &[], &w.me.signer)
                     } else {
@@ -282,7 +345,7 @@ fn step(w: &mut World, ids: &mut Ids, s: &Value) -> Result<(), String> {
                     .map_err(|e| format!("create patch: {e}"))?;
                     *p.id
                 } else {
-                    let mut issues = issue::Cache::open(issue::Issues::open(&*w.repo).map_err(|e| e.to_string())?, w.db.clone());
+                    let mut issues = issue::Cache::open(issue::Issues::open(w.repo()).map_err(|e| e.to_string())?, w.db.clone());
                     let i = issues
                         .create(format!("issue {id}"), "d", &[], &[], [], &w.me.signer)
                         .map_err(|e| format!("create issue: {e}"))?;
@@ -292,7 +355,7 @@ fn step(w: &mut World, ids: &mut Ids, s: &Value) -> Result<(), String> {
                 w.sync_peer()?;
                 let (base, oid) = w.new_commit(false);
                 if is_patch {
-                    let mut patches = patch::Cache::no_cache(&w.peer_repo).map_err(|e| e.to_string())?;
+                    let mut patches = patch::Cache::no_cache(w.peer_repo()).map_err(|e| e.to_string())?;
                     let p = if draft {
                         patches.draft(format!("patch {id}"), "d", MergeTarget::Delegates, base, oid, &[], &w.peer.signer)
                     } else {
@@ -301,7 +364,7 @@ fn step(w: &mut World, ids: &mut Ids, s: &Value) -> Result<(), String> {
                     .map_err(|e| format!("peer create patch: {e}"))?;
                     *p.id
                 } else {
-                    let mut issues = issue::Cache::no_cache(&w.peer_repo).map_err(|e| e.to_string())?;
+                    let mut issues = issue::Cache::no_cache(w.peer_repo()).map_err(|e| e.to_string())?;
                     let i = issues
                         .create(format!("issue {id}"), "d", &[], &[], [], &w.peer.signer)
                         .map_err(|e| format!("peer create issue: {e}"))?;
@@ -310,6 +373,7 @@ fn step(w: &mut World, ids: &mut Ids, s: &Value) -> Result<(), String> {
             };
             ids.put(id, entry);
             ids.is_patch.insert(id, is_patch);
+            ids.repo_of.insert(id, w.cur);
             if a == "fetchedCreate" {
                 w.fetch_from_peer()?;
             }
@@ -325,29 +389,29 @@ fn step(w: &mut World, ids: &mut Ids, s: &Value) -> Result<(), String> {
                 w.new_commit(by_me)
             } else if o["st"] == "merged" {
                 let master = format!("refs/namespaces/{}/refs/heads/master", w.me.signer.public_key());
-                let head: Oid = w.repo.backend.refname_to_id(&master).map_err(|e| e.to_string())?.into();
+                let head: Oid = w.repo().backend.refname_to_id(&master).map_err(|e| e.to_string())?.into();
                 (head, head)
             } else {
                 (Oid::from(git2::Oid::zero()), Oid::from(git2::Oid::zero()))
             };
             let entry: Oid = match (is_patch, by_me) {
                 (true, true) => {
-                    let mut patches = patch::Cache::open(patch::Patches::open(&*w.repo).map_err(|e| e.to_string())?, w.db.clone());
+                    let mut patches = patch::Cache::open(patch::Patches::open(w.repo()).map_err(|e| e.to_string())?, w.db.clone());
                     let mut p = patches.get_mut(&real_obj).map_err(|e| format!("get_mut (cache): {e}"))?;
                     patch_op(ids, &mut p, o, &w.me.signer, base_oid)?
                 }
                 (true, false) => {
-                    let mut patches = patch::Cache::no_cache(&w.peer_repo).map_err(|e| e.to_string())?;
+                    let mut patches = patch::Cache::no_cache(w.peer_repo()).map_err(|e| e.to_string())?;
                     let mut p = patches.get_mut(&real_obj).map_err(|e| format!("peer get_mut: {e}"))?;
                     patch_op(ids, &mut p, o, &w.peer.signer, base_oid)?
                 }
                 (false, true) => {
-                    let mut issues = issue::Cache::open(issue::Issues::open(&*w.repo).map_err(|e| e.to_string())?, w.db.clone());
+                    let mut issues = issue::Cache::open(issue::Issues::open(w.repo()).map_err(|e| e.to_string())?, w.db.clone());
                     let mut i = issues.get_mut(&real_obj).map_err(|e| format!("get_mut (cache): {e}"))?;
                     issue_op(&mut i, o, &w.me.signer)?
                 }
                 (false, false) => {
-                    let mut issues = issue::Cache::no_cache(&w.peer_repo).map_err(|e| e.to_string())?;
+                    let mut issues = issue::Cache::no_cache(w.peer_repo()).map_err(|e| e.to_string())?;
                     let mut i = issues.get_mut(&real_obj).map_err(|e| format!("peer get_mut: {e}"))?;
                     issue_op(&mut i, o, &w.peer.signer)?
                 }
@@ -376,10 +440,10 @@ fn step(w: &mut World, ids: &mut Ids, s: &Value) -> Result<(), String> {
         "remove" => {
             let real_obj = ObjectId::from(ids.real(obj));
             if ids.is_patch[&obj] {
-                let mut patches = patch::Cache::open(patch::Patches::open(&*w.repo).map_err(|e| e.to_string())?, w.db.clone());
+                let mut patches = patch::Cache::open(patch::Patches::open(w.repo()).map_err(|e| e.to_string())?, w.db.clone());
                 patches.remove(&real_obj, &w.me.signer).map_err(|e| format!("remove: {e}"))
             } else {
-                let mut issues = issue::Cache::open(issue::Issues::open(&*w.repo).map_err(|e| e.to_string())?, w.db.clone());
+                let mut issues = issue::Cache::open(issue::Issues::open(w.repo()).map_err(|e| e.to_string())?, w.db.clone());
                 issues.remove(&real_obj, &w.me.signer).map_err(|e| format!("remove: {e}"))
             }
         }
@@ -387,12 +451,12 @@ fn step(w: &mut World, ids: &mut Ids, s: &Value) -> Result<(), String> {
             let real_obj = ObjectId::from(ids.real(obj));
             w.sync_peer()?;
             if ids.is_patch[&obj] {
-                patch::Patches::open(&w.peer_repo)
+                patch::Patches::open(w.peer_repo())
                     .map_err(|e| e.to_string())?
                     .remove(&real_obj, &w.peer.signer)
                     .map_err(|e| format!("peer remove: {e}"))?;
             } else {
-                issue::Issues::open(&w.peer_repo)
+                issue::Issues::open(w.peer_repo())
                     .map_err(|e| e.to_string())?
                     .remove::<radicle::cob::cache::NoCache, _>(&real_obj, &w.peer.signer)
                     .map_err(|e| format!("peer remove: {e}"))?;
@@ -401,10 +465,10 @@ fn step(w: &mut World, ids: &mut Ids, s: &Value) -> Result<(), String> {
         }
         "writeAll" => {
             if o["kind"] == "patch" {
-                let mut patches = patch::Cache::open(patch::Patches::open(&*w.repo).map_err(|e| e.to_string())?, w.db.clone());
+                let mut patches = patch::Cache::open(patch::Patches::open(w.repo()).map_err(|e| e.to_string())?, w.db.clone());
                 patches.write_all(|_, _| ControlFlow::Continue(())).map_err(|e| format!("write_all: {e}"))
             } else {
-                let mut issues = issue::Cache::open(issue::Issues::open(&*w.repo).map_err(|e| e.to_string())?, w.db.clone());
+                let mut issues = issue::Cache::open(issue::Issues::open(w.repo()).map_err(|e| e.to_string())?, w.db.clone());
                 issues.write_all(|_, _| ControlFlow::Continue(())).map_err(|e| format!("write_all: {e}"))
             }
         }
@@ -485,18 +549,21 @@ fn issue_answers<I: Issues>(p: &I, probe: &[Oid]) -> Value {
     json!({"get": get, "list": list_res(p.list()), "status": by_status, "counts": counts})
 }
 
-/// (answers through the cache, answers by direct evaluation)
+/// (answers through the cache, answers by direct evaluation), one entry per repository. Every
+/// identifier known so far -- of whichever repository -- is used as an argument in every repository.
 fn all_answers(w: &World, ids: &Ids) -> Result<(Value, Value), String> {
     let mut probe: Vec<Oid> = ids.real.values().copied().collect();
     probe.push(UNKNOWN.parse().unwrap());
-    let pc = patch::Cache::open(patch::Patches::open(&*w.repo).map_err(|e| e.to_string())?, w.db.clone());
-    let pd = patch::Cache::no_cache(&*w.repo).map_err(|e| e.to_string())?;
-    let ic = issue::Cache::open(issue::Issues::open(&*w.repo).map_err(|e| e.to_string())?, w.db.clone());
-    let id = issue::Cache::no_cache(&*w.repo).map_err(|e| e.to_string())?;
-    Ok((
-        json!({"patch": patch_answers(&pc, &probe), "issue": issue_answers(&ic, &probe)}),
-        json!({"patch": patch_answers(&pd, &probe), "issue": issue_answers(&id, &probe)}),
-    ))
+    let (mut cache, mut direct) = (Vec::new(), Vec::new());
+    for repo in &w.repos {
+        let pc = patch::Cache::open(patch::Patches::open(repo).map_err(|e| e.to_string())?, w.db.clone());
+        let pd = patch::Cache::no_cache(repo).map_err(|e| e.to_string())?;
+        let ic = issue::Cache::open(issue::Issues::open(repo).map_err(|e| e.to_string())?, w.db.clone());
+        let id = issue::Cache::no_cache(repo).map_err(|e| e.to_string())?;
+        cache.push(json!({"patch": patch_answers(&pc, &probe), "issue": issue_answers(&ic, &probe)}));
+        direct.push(json!({"patch": patch_answers(&pd, &probe), "issue": issue_answers(&id, &probe)}));
+    }
+    Ok((json!(cache), json!(direct)))
 }
 
 /// Errors carry implementation-specific text: for the comparison of the two stores only the fact
@@ -635,8 +702,13 @@ fn ids_of_list(ids: &Ids, l: &Value) -> Value {
     }
 }
 
-/// Real answers of one store in the shape of `Answers` of CobCache.tla (normal form).
+/// Real answers of one store in the shape of `Answers` of CobCache.tla (normal form): one record
+/// per repository.
 fn project(w: &World, ids: &Ids, ans: &Value, n: u64) -> Value {
+    json!(ans.as_array().map(|a| a.iter().map(|x| project_repo(w, ids, x, n)).collect::<Vec<_>>()).unwrap_or_default())
+}
+
+fn project_repo(w: &World, ids: &Ids, ans: &Value, n: u64) -> Value {
     let mut get = Vec::new();
     let mut find = Vec::new();
     let find_one = |f: &Value| -> Value {
@@ -690,6 +762,10 @@ fn as_map(v: &Value) -> BTreeMap<String, Value> {
 
 /// Model answers (as printed by TLC) in the same normal form as `project`.
 fn model_normal(a: &Value) -> Value {
+    json!(as_map(a).values().map(model_normal_repo).collect::<Vec<_>>())
+}
+
+fn model_normal_repo(a: &Value) -> Value {
     let obj = |v: &Value| -> Value {
         if v["kind"] == "none" {
             return json!({"kind": "none"});
@@ -720,7 +796,14 @@ fn model_normal(a: &Value) -> Value {
 fn describe(s: &Value) -> String {
     let o = &s["op"];
     match s["a"].as_str().unwrap_or("?") {
-        "create" | "fetchedCreate" => format!("{}({} {} {})", s["a"].as_str().unwrap(), o["kind"].as_str().unwrap_or("?"), o["st"].as_str().unwrap_or("?"), o["id"]),
+        "create" | "fetchedCreate" => format!(
+            "{}(r{} {} {} {})",
+            s["a"].as_str().unwrap(),
+            o["repo"].as_u64().unwrap_or(1),
+            o["kind"].as_str().unwrap_or("?"),
+            o["st"].as_str().unwrap_or("?"),
+            o["id"]
+        ),
         "local" | "fetched" => format!(
             "{}({}:{}{}{})",
             s["a"].as_str().unwrap(),
@@ -729,7 +812,7 @@ fn describe(s: &Value) -> String {
             if o["arg"].as_u64().unwrap_or(0) > 0 { format!(" {}", o["arg"]) } else { String::new() },
             if o["st"] != "-" { format!(" {}", o["st"].as_str().unwrap_or("")) } else { String::new() }
         ),
-        "writeAll" => format!("writeAll({})", o["kind"].as_str().unwrap_or("?")),
+        "writeAll" => format!("writeAll(r{} {})", o["repo"].as_u64().unwrap_or(1), o["kind"].as_str().unwrap_or("?")),
         a => format!("{a}({})", s["obj"]),
     }
 }
@@ -739,7 +822,7 @@ fn shape(steps: &[Value]) -> String {
 }
 
 /// Run one behaviour; returns (failure record if any, number of query comparisons).
-fn run_behaviour(w: &mut World, log: &[Value], with_model: bool) -> (Option<Value>, usize) {
+fn run_behaviour(w: &mut World, log: &[Value], with_model: bool, mut trace: Option<&mut Out>) -> (Option<Value>, usize) {
     let tr = std::time::Instant::now();
     w.reset();
     if std::env::var("VERIF_DEBUG").is_ok() {
@@ -748,6 +831,9 @@ fn run_behaviour(w: &mut World, log: &[Value], with_model: bool) -> (Option<Valu
     let mut ids = Ids::default();
     let mut compared = 0usize;
     let mut done: Vec<Value> = Vec::new();
+    if let Some(t) = trace.as_mut() {
+        t.emit(&json!({"ev": "reset"}));
+    }
     for e in log {
         let s = &e["step"];
         done.push(s.clone());
@@ -763,8 +849,13 @@ fn run_behaviour(w: &mut World, log: &[Value], with_model: bool) -> (Option<Valu
         if std::env::var("VERIF_DEBUG").is_ok() {
             eprintln!("{}: step {:?} queries {:?}", describe(s), t1 - t0, t1.elapsed());
         }
-        compared += 2 * ids.real.len() + 12;
+        compared += NREPOS * (2 * ids.real.len() + 12);
         let (cn, dn) = (normalise(&c), normalise(&d));
+        if let Some(t) = trace.as_mut() {
+            // for validation by TraceCobCache.tla: the step and what direct evaluation answers
+            let n = ids.real.keys().max().copied().unwrap_or(0);
+            t.emit(&json!({"ev": "step", "step": s, "ans": project(w, &ids, &d, n)}));
+        }
         if cn != dn {
             let mut out = Vec::new();
             diff(&cn, &dn, "", &mut out);
@@ -806,13 +897,14 @@ fn random_behaviour(w: &mut World, rng: &mut fastrand::Rng, nsteps: usize, out: 
     for _ in 0..nsteps {
         let objs: Vec<u64> = holders.iter().filter(|(_, h)| !h.is_empty()).map(|(i, _)| *i).collect();
         let roll = rng.u8(0..100);
-        let noop = json!({"k": "-", "id": 0, "by": "-", "arg": 0, "st": "-", "kind": "-"});
-        let s: Value = if objs.is_empty() || (roll < 18 && holders.len() < 5) {
+        let noop = json!({"k": "-", "id": 0, "by": "-", "arg": 0, "st": "-", "kind": "-", "repo": 0});
+        let s: Value = if objs.is_empty() || (roll < 18 && holders.len() < 6) {
             let by_me = rng.bool();
             let kind = if rng.u8(0..3) == 0 { "issue" } else { "patch" };
             let st = if kind == "patch" && rng.u8(0..4) == 0 { "draft" } else { "open" };
             json!({"a": if by_me { "create" } else { "fetchedCreate" }, "obj": next,
-                   "op": {"k": "create", "id": next, "by": if by_me { "me" } else { "peer" }, "arg": 0, "st": st, "kind": kind}})
+                   "op": {"k": "create", "id": next, "by": if by_me { "me" } else { "peer" }, "arg": 0, "st": st, "kind": kind,
+                          "repo": rng.usize(1..=NREPOS)}})
         } else if roll < 24 {
             let mine: Vec<u64> = holders.iter().filter(|(_, h)| h.contains("me")).map(|(i, _)| *i).collect();
             if mine.is_empty() {
@@ -828,6 +920,7 @@ fn random_behaviour(w: &mut World, rng: &mut fastrand::Rng, nsteps: usize, out: 
         } else if roll < 33 {
             let mut o = noop.clone();
             o["kind"] = json!(if rng.bool() { "patch" } else { "issue" });
+            o["repo"] = json!(rng.usize(1..=NREPOS));
             json!({"a": "writeAll", "obj": 0, "op": o})
         } else {
             let i = objs[rng.usize(0..objs.len())];
@@ -839,7 +932,7 @@ fn random_behaviour(w: &mut World, rng: &mut fastrand::Rng, nsteps: usize, out: 
             let v = &view[i as usize - 1];
             let live: Vec<u64> = v["revs"].as_object().map(|m| m.iter().filter(|(_, s)| *s == "live").map(|(k, _)| k.parse().unwrap()).collect()).unwrap_or_default();
             let mut cands: Vec<Value> = Vec::new();
-            let op = |k: &str, arg: u64, st: &str| json!({"k": k, "id": next, "by": by, "arg": arg, "st": st, "kind": "-"});
+            let op = |k: &str, arg: u64, st: &str| json!({"k": k, "id": next, "by": by, "arg": arg, "st": st, "kind": "-", "repo": 0});
             if v["kind"] == "patch" {
                 cands.push(op("revision", 0, "-"));
                 for r in &live {
@@ -935,10 +1028,20 @@ fn random_behaviour(w: &mut World, rng: &mut fastrand::Rng, nsteps: usize, out: 
             return Some(json!({"ok": false, "kind": "cache-vs-direct", "shape": shape(&done), "diff": o, "steps": done}));
         }
         let real = project(w, &ids, &d, next - 1);
-        view = real["get"].as_array().cloned().unwrap_or_default();
+        // an object shows up in the answers of its own repository only
+        let merge = |p: &Value| -> Vec<Value> {
+            (0..(next - 1) as usize)
+                .map(|i| {
+                    p.as_array()
+                        .and_then(|rs| rs.iter().map(|r| r["get"][i].clone()).find(|v| v["kind"] != "none" && !v.is_null()))
+                        .unwrap_or_else(|| json!({"kind": "none"}))
+                })
+                .collect()
+        };
+        view = merge(&real);
         // which objects does the cache hold (for the generator: local operations need them)
         let cached = project(w, &ids, &c, next - 1);
-        in_cache = cached["get"].as_array().unwrap().iter().enumerate().filter(|(_, v)| v["kind"] != "none").map(|(i, _)| i as u64 + 1).collect();
+        in_cache = merge(&cached).iter().enumerate().filter(|(_, v)| v["kind"] != "none").map(|(i, _)| i as u64 + 1).collect();
         out.emit(&json!({"ev": "step", "step": s, "ans": real}));
     }
     None
@@ -966,6 +1069,7 @@ fn main() {
             let cases = read_ndjson(Path::new(args.req("--cases")));
             let (mut failures, mut compared, mut steps) = (0usize, 0usize, 0usize);
             let mut world = World::new(&work);
+            let mut trace = args.get("--trace").map(|p| Out::create(Path::new(p)));
             for (n, c) in cases.iter().enumerate() {
                 if n > 0 && n % 100 == 0 {
                     world = World::new(&work);
@@ -973,7 +1077,7 @@ fn main() {
                 let log: Vec<Value> = c["log"].as_array().cloned().unwrap_or_default();
                 steps += log.len();
                 let with_model = log.iter().all(|e| e.get("ans").is_some());
-                let (f, n) = run_behaviour(&mut world, &log, with_model);
+                let (f, n) = run_behaviour(&mut world, &log, with_model, trace.as_mut());
                 compared += n;
                 if let Some(mut f) = f {
                     failures += 1;
@@ -982,6 +1086,9 @@ fn main() {
                 }
             }
             out.emit(&json!({"summary": true, "stats": {"behaviours": cases.len(), "steps": steps, "failures": failures, "query_comparisons": compared}}));
+            if let Some(t) = trace {
+                t.finish();
+            }
         }
         "record" => {
             let n = args.num("--n", 20) as usize;
